@@ -98,6 +98,10 @@ func consumesReader(info *types.Info, n ast.Node, o types.Object) bool {
 				switch se.Sel.Name {
 				case "Read", "Next", "ReadByte", "Write", "WriteByte":
 					found = true
+				case "ReadFrom":
+					if isReaderType(typeOfIn(info, se.X)) {
+						found = true
+					}
 				}
 			}
 		}
@@ -460,6 +464,16 @@ func (t *fnTrans) effectCall(c *ast.CallExpr) (string, []string, bool) {
 			a := t.expr(c.Args[0])
 			return t.assignObj(c, wo, fmt.Sprintf("(%s ++ %s)", t.varRead(wo), a)), []string{fmt.Sprintf("(lenI %s)", a), "(none : GoErr)"}, true
 		}
+		if lv, isLV := t.readerLV(se.X); isLV && isFieldPath(info, lv) {
+			// a buffer that is a field: the field is rebound
+			a := t.expr(c.Args[0])
+			return t.assign(c, lv, fmt.Sprintf("(%s ++ %s)", t.expr(lv), a)), []string{fmt.Sprintf("(lenI %s)", a), "(none : GoErr)"}, true
+		}
+	}
+	if se, ok := c.Fun.(*ast.SelectorExpr); ok && se.Sel.Name == "ReadFrom" && len(c.Args) == 1 {
+		if pre, vals, ok := t.readFromCall(c, se); ok {
+			return pre, vals, true
+		}
 	}
 	// log.Fatal*: the process ends. Translated as "nothing further happens" (the statement list ends with the
 	// function's zero result); reachability of these sites is C13/C14's static certificate.
@@ -519,8 +533,8 @@ func (t *fnTrans) effectCall(c *ast.CallExpr) (string, []string, bool) {
 		nres := fd.obj.Type().(*types.Signature).Results().Len()
 		total := nres + len(fd.mutParams)
 		for k, i := range fd.mutParams {
-			if isFreshReader(info, c.Args[i]) {
-				continue // bytes.NewBuffer(x) made for this call: what is left of it is dropped
+			if t.droppedReaderArg(c.Args[i]) {
+				continue // bytes.NewBuffer(x) / a reader made for this one call: what is left of it is dropped
 			}
 			b.WriteString(t.assign(c.Args[i], c.Args[i], tupleProj(tmp, k, total)))
 		}
@@ -560,7 +574,7 @@ func (t *fnTrans) effectCall(c *ast.CallExpr) (string, []string, bool) {
 		k = 1
 	}
 	for _, i := range fd.mutParams {
-		if !isFreshReader(info, c.Args[i]) {
+		if !t.droppedReaderArg(c.Args[i]) {
 			b.WriteString(t.assign(c.Args[i], c.Args[i], tupleProj(tmp, k, total)))
 		}
 		k++
